@@ -133,6 +133,8 @@ def _setup(cfg):
     factor.MODE = cfg.get('factor_mode', 'exact')
     factor.SIGNS = bool(cfg.get('signs', False))
     symtorch.SELECT_MODE = cfg.get('select_mode', 'fork')
+    from . import autograd
+    autograd.ENABLED = bool(cfg.get('autograd', False))
 
 
 def exact_trace(arg):
